@@ -21,6 +21,12 @@ def offer_run(src, stdin, model_fields):
         POOL.append(('file', src, stdin, '\t'.join((model_fields + ['', '', ''])[:3])))
 
 
+def offer_frun(src, stdin, model_fields):
+    """a run of the flag-level evaluator (Model/FlagEval.v through FlagCli.frun_file)"""
+    if len(POOL) < 4000 and eligible(src) and isinstance(stdin, str) and model_fields and not model_fields[0].startswith('noresult'):
+        POOL.append(('ffile', src, stdin, '\t'.join((model_fields + ['', '', ''])[:3])))
+
+
 def offer_front(src, model_parse_fields):
     if len(POOL) < 4000 and isinstance(src, str) and len(src) < 400:
         POOL.append(('parse', src, '', '\t'.join((model_parse_fields + ['', '', ''])[:3])))
@@ -41,16 +47,16 @@ def run(n=40, seed=0):
     os.makedirs(d, exist_ok=True)
     path = os.path.join(d, 'Cases_%d.v' % os.getpid())
     with open(path, 'w') as f:
-        f.write('From Borno Require Import Base Num Unicode Token Lexer Ast Parser Value Eval Cli Render.\nOpen Scope N_scope.\n')
+        f.write('From Borno Require Import Base Num Unicode Token Lexer Ast Parser Value Eval Cli Render FlagEval FlagCli.\nOpen Scope N_scope.\n')
         f.write('Definition libm0 (_ : N) (_ _ : f64) : f64 := f_nan.\n')
         f.write('Definition fuel0 : nat := N.to_nat 200000.\n')
-        f.write('Definition run1 (mode : bool) (src stdin : list N) : list N :=\n  if mode then outcome_str (run_file libm0 (f_of_bits 4745084416362086400) (rotate_sched 0) fuel0 src stdin) else parse_str src.\n')
-        f.write('Definition cases : list (bool * list N * list N * list N) := [\n')
+        f.write('Definition run1 (mode : N) (src stdin : list N) : list N :=\n  if mode =? 1 then outcome_str (run_file libm0 (f_of_bits 4745084416362086400) (rotate_sched 0) fuel0 src stdin)\n  else if mode =? 2 then outcome_str (frun_file libm0 (f_of_bits 4745084416362086400) (rotate_sched 0) fuel0 src stdin) else parse_str src.\n')
+        f.write('Definition cases : list (N * list N * list N * list N) := [\n')
         rows = []
         for mode, src, stdin, exp in sample:
-            rows.append('  (%s, %s, %s, %s)' % ('true' if mode == 'file' else 'false', coq_list(core.cps_of(src)), coq_list(core.cps_of(stdin)), coq_list([ord(c) for c in exp])))
+            rows.append('  (%s, %s, %s, %s)' % ({'file': '1', 'ffile': '2'}.get(mode, '0'), coq_list(core.cps_of(src)), coq_list(core.cps_of(stdin)), coq_list([ord(c) for c in exp])))
         f.write(';\n'.join(rows) + '\n].\n')
-        f.write('Definition agree (c : bool * list N * list N * list N) : bool := let \'(m, s, i, e) := c in str_eqb (run1 m s i) e.\n')
+        f.write('Definition agree (c : N * list N * list N * list N) : bool := let \'(m, s, i, e) := c in str_eqb (run1 m s i) e.\n')
         f.write('Definition verdict := (length cases, length (filter agree cases)).\nEval vm_compute in verdict.\n')
     t0 = time.time()
     r = core.sh(['coqc', '-Q', core.COQ, 'Borno', path], check=False, timeout=1800)
